@@ -20,6 +20,8 @@ Lemma CUTOFF_val : MINI_STREAM_CUTOFF = 4096. Proof. reflexivity. Qed.
 Lemma DEL_val : DIR_ENTRY_LEN = 128. Proof. reflexivity. Qed.
 Lemma MAXNAME_val : MAX_NAME_LEN = 31. Proof. reflexivity. Qed.
 Lemma two64_val : two64 = 18446744073709551616. Proof. reflexivity. Qed.
+Lemma MAXREG_val : MAX_REGULAR_SECTOR = 4294967290. Proof. vm_compute. reflexivity. Qed.
+Lemma EOC_val : END_OF_CHAIN = 4294967294. Proof. vm_compute. reflexivity. Qed.
 
 (* ------------------------------------------------------------------ *)
 (* list helpers                                                        *)
@@ -166,8 +168,9 @@ Record StoreWf (s : cstate) : Prop := mkStoreWf {
   (* the image has nsect+1 elements, every sector is whole, free sectors exist,
      every FAT index is backed by a FAT sector that exists *)
   sw_alloc : AllocWf s;
-  (* sector numbers are 32-bit: no u64 overflow in Chain::set_len *)
-  sw_nsect : nsect s <= u32_max;
+  (* every sector number is a regular one (in particular 32-bit: no u64
+     overflow in Chain::set_len) *)
+  sw_nsect : nsect s <= MAX_REGULAR_SECTOR + 1;
   (* the directory chain is a good chain with room for every slot *)
   sw_dir : exists dids, dir_ids s dids /\ good_chain s dids /\
              DIR_ENTRY_LEN * lenN (dirs s) <= slen s * lenN dids;
@@ -187,6 +190,9 @@ Record StoreWf (s : cstate) : Prop := mkStoreWf {
              (forall id ids, big_ids s id ids -> ~ In f ids) /\
              (forall dids, dir_ids s dids -> ~ In f dids)
 }.
+
+Lemma wf_nsect_u32 : forall s, StoreWf s -> nsect s <= u32_max.
+Proof. intros s H. pose proof (sw_nsect s H) as B. rewrite MAXREG_val in B. unfold u32_max. lia. Qed.
 
 (* ------------------------------------------------------------------ *)
 (* writing the directory entry back                                    *)
@@ -598,7 +604,7 @@ Proof.
       rewrite bind_get.
       rewrite (bind_exec _ _ _ _ _ (chain_set_len_same s (mkChain IZero ids 0) new_len
                  ltac:(rewrite CUTOFF_val in Hnl; lia)
-                 ltac:(pose proof (good_chain_count _ _ Hg); pose proof (sw_nsect s Hwf);
+                 ltac:(pose proof (good_chain_count _ _ Hg); pose proof (wf_nsect_u32 s Hwf);
                        destruct (slen_cases s) as [Es|Es]; rewrite Es in *;
                        unfold u32_max in *; rewrite two64_val; nia)
                  ltac:(cbn [c_ids]; symmetry; apply (N.div_unique _ _ _
@@ -715,3 +721,1192 @@ Proof.
   rewrite Hl1 in HB2.
   exists s1, s2. csplit; assumption.
 Qed.
+
+(* ================================================================== *)
+(* FAT bookkeeping: chains under set_fat / free_chain / allocation      *)
+(* ================================================================== *)
+
+Notation path := WalkProofs.path.
+
+Lemma path_ext : forall fat fat' c l,
+  path fat c l -> lenN fat' = lenN fat ->
+  (forall x, In x l -> nthN fat' x = nthN fat x) -> path fat' c l.
+Proof.
+  intros fat fat' c l Hp. induction Hp as [|cur nx l Hc Hn Hp IH]; intros Hlen Hnth.
+  - constructor.
+  - econstructor; [exact Hc | | apply IH; [exact Hlen|]].
+    + unfold next_of in *. rewrite Hlen, (Hnth cur (or_introl eq_refl)). exact Hn.
+    + intros x Hx. apply Hnth. right. exact Hx.
+Qed.
+
+Lemma path_head : forall fat c a l, path fat c (a :: l) -> c = a.
+Proof. intros fat c a l H. inversion H; subst. reflexivity. Qed.
+
+Lemma path_mid : forall fat l c a l2, path fat c (l ++ a :: l2) -> path fat a (a :: l2).
+Proof.
+  intros fat l. induction l as [|b l IH]; intros c a l2 H; cbn [app] in H.
+  - pose proof (path_head _ _ _ _ H) as ->. exact H.
+  - inversion H as [|cur nx l' Hc Hn Hp]; subst. eapply IH. exact Hp.
+Qed.
+
+Lemma next_of_EOC : forall fat a, a < lenN fat -> next_of (updN fat a END_OF_CHAIN) a = Ok END_OF_CHAIN.
+Proof.
+  intros fat a H. apply WalkProofs.next_of_Ok. rewrite nthN_updN_same by exact H.
+  split; [reflexivity | left; reflexivity].
+Qed.
+
+(* cutting a chain after [a] *)
+Lemma path_truncate : forall fat l c a l2,
+  path fat c (l ++ a :: l2) -> ~ In a l -> a < lenN fat ->
+  path (updN fat a END_OF_CHAIN) c (l ++ [a]).
+Proof.
+  intros fat l. induction l as [|b l IH]; intros c a l2 H Hni Ha; cbn [app] in *.
+  - inversion H as [|cur nx l' Hc Hn Hp]; subst.
+    econstructor; [exact Hc | apply next_of_EOC; exact Ha | constructor].
+  - inversion H as [|cur nx l' Hc Hn Hp]; subst.
+    econstructor; [exact Hc | | eapply IH; [exact Hp | | exact Ha]].
+    + rewrite next_of_updN_other; [exact Hn|]. intro E. apply Hni. left. exact E.
+    + intro Hin. apply Hni. right. exact Hin.
+Qed.
+
+(* extending a chain that ends in [a] by a cell [b] holding END_OF_CHAIN *)
+Lemma path_extend : forall fat l c a b,
+  path fat c (l ++ [a]) -> ~ In a l -> a <> b -> ~ In b l ->
+  nthN fat b = Some END_OF_CHAIN -> b <> END_OF_CHAIN ->
+  b <= MAX_REGULAR_SECTOR -> b < lenN fat ->
+  path (updN fat a b) c (l ++ [a; b]).
+Proof.
+  intros fat l. induction l as [|x l IH]; intros c a b H Hni Hab Hnb Hb Hbe Hbr Hbl; cbn [app] in *.
+  - inversion H as [|cur nx l' Hc Hn Hp]; subst.
+    pose proof (WalkProofs.next_of_lt _ _ _ Hn) as Ha.
+    econstructor; [exact Hc | | ].
+    + apply WalkProofs.next_of_Ok. rewrite nthN_updN_same by exact Ha.
+      split; [reflexivity | right; rewrite lenN_updN; split; assumption].
+    + econstructor; [exact Hbe | | constructor].
+      apply WalkProofs.next_of_Ok. rewrite nthN_updN_other by lia.
+      split; [exact Hb | left; reflexivity].
+  - inversion H as [|cur nx l' Hc Hn Hp]; subst.
+    econstructor; [exact Hc | | eapply IH; try eassumption].
+    + rewrite next_of_updN_other; [exact Hn|]. intro E. apply Hni. left. exact E.
+    + intro Hin. apply Hni. right. exact Hin.
+    + intro Hin. apply Hnb. right. exact Hin.
+Qed.
+
+Lemma path_last_EOC : forall fat l c a,
+  path fat c (l ++ [a]) -> next_of fat a = Ok END_OF_CHAIN.
+Proof.
+  intros fat l c a H. apply path_mid in H.
+  inversion H as [|cur nx l' Hc Hn Hp]; subst. inversion Hp; subst. exact Hn.
+Qed.
+
+Lemma takeN_snoc_nth : forall A (l : list A) n x,
+  nthN l n = Some x -> takeN (n + 1) l = takeN n l ++ [x].
+Proof.
+  intros A l. induction l as [|y l IH]; intros n x H.
+  - discriminate.
+  - destruct (N.eq_dec n 0) as [->|Hn].
+    + cbn in H. injection H as ->. rewrite takeN_0. cbn [app].
+      rewrite takeN_cons by lia. rewrite takeN_0. reflexivity.
+    + rewrite nthN_cons_pos in H by lia.
+      rewrite !takeN_cons by lia. cbn [app]. f_equal.
+      replace (N.pred (n + 1)) with (N.pred n + 1) by lia. apply IH. exact H.
+Qed.
+
+Lemma dropN_nth : forall A (l : list A) n x,
+  nthN l n = Some x -> dropN n l = x :: dropN (n + 1) l.
+Proof.
+  intros A l. induction l as [|y l IH]; intros n x H.
+  - discriminate.
+  - destruct (N.eq_dec n 0) as [->|Hn].
+    + cbn in H. injection H as ->. rewrite dropN_0.
+      rewrite dropN_cons by lia. rewrite dropN_0. reflexivity.
+    + rewrite nthN_cons_pos in H by lia.
+      rewrite !dropN_cons by lia.
+      replace (N.pred (n + 1)) with (N.pred n + 1) by lia. apply IH. exact H.
+Qed.
+
+Lemma nthN_lt_Some : forall A (l : list A) i, i < lenN l -> exists x, nthN l i = Some x.
+Proof.
+  intros A l i H. destruct (nthN l i) eqn:E; [eauto|]. apply nthN_None_ge in E. lia.
+Qed.
+
+(* what the FAT-level operations leave alone *)
+Definition meta_same (s s' : cstate) : Prop :=
+  ver s' = ver s /\ nsect s' = nsect s /\ difat s' = difat s /\ dirs s' = dirs s /\
+  dir_start s' = dir_start s /\ lenN (img s') = lenN (img s) /\ lenN (fat s') = lenN (fat s).
+
+Lemma meta_same_refl : forall s, meta_same s s.
+Proof. intro s. unfold meta_same. csplit; reflexivity. Qed.
+
+Lemma meta_same_trans : forall a b c, meta_same a b -> meta_same b c -> meta_same a c.
+Proof.
+  intros a b c (A1 & A2 & A3 & A4 & A5 & A6 & A7) (B1 & B2 & B3 & B4 & B5 & B6 & B7).
+  unfold meta_same. csplit; congruence.
+Qed.
+
+Lemma meta_same_slen : forall s s', meta_same s s' -> slen s' = slen s.
+Proof. intros s s' (Hv & _). unfold slen. rewrite Hv. reflexivity. Qed.
+
+Lemma same_shape_meta : forall s s', same_shape s s' -> dirs s' = dirs s -> meta_same s s'.
+Proof.
+  intros s s' (Hn & Hv & Hi & Hl & Hfat & Hfree & Hdifat & Hds & _) Hd.
+  unfold meta_same. csplit; try assumption. rewrite Hfat. reflexivity.
+Qed.
+
+Lemma sector_bytes_set_fat_state : forall s i v f x,
+  x <> f -> sector_bytes (set_fat_state s i v f) x = sector_bytes s x.
+Proof.
+  intros s i v f x H. unfold set_fat_state, sector_bytes, wr. cbn [img w_fat w_img].
+  rewrite nthN_updN_other by lia. reflexivity.
+Qed.
+
+Lemma set_fat_state_wf : forall s i v f,
+  AllocWf s -> i < lenN (fat s) -> f < nsect s -> AllocWf (set_fat_state s i v f).
+Proof.
+  intros s i v f [H1 H2 H3 H4] Hi Hf.
+  pose proof (set_fat_state_fields s i v f)
+    as (Ev & En & Edi & Ed & Efat & Efr & _ & _ & _ & Esl & Efps & Eimg).
+  assert (El : lenN (fat (set_fat_state s i v f)) = lenN (fat s))
+    by (rewrite Efat; apply lenN_fat_set_lt; exact Hi).
+  constructor.
+  - rewrite Eimg, En. exact H1.
+  - apply full_set_fat_state; assumption.
+  - intros y Hy. rewrite Efr in Hy. rewrite En, El. apply H3. exact Hy.
+  - intros j Hj. rewrite El in Hj. rewrite Ed, Efps, En. apply H4. exact Hj.
+Qed.
+
+Lemma set_fat_state_meta : forall s i v f,
+  i < lenN (fat s) -> meta_same s (set_fat_state s i v f).
+Proof.
+  intros s i v f Hi.
+  pose proof (set_fat_state_fields s i v f)
+    as (Ev & En & Edi & Ed & Efat & Efr & Edirs & _ & _ & Esl & Efps & Eimg).
+  unfold meta_same. csplit; try assumption; try reflexivity.
+  rewrite Efat. apply lenN_fat_set_lt. exact Hi.
+Qed.
+
+Lemma fat_set_lt : forall l i v, i < lenN l -> fat_set l i v = updN l i v.
+Proof. intros l i v H. unfold fat_set. destruct (i =? lenN l) eqn:E; [lia | reflexivity]. Qed.
+
+Lemma good_chain_of_wf : forall s ids,
+  AllocWf s -> NoDup ids -> Forall (fun x => x < nsect s) ids -> good_chain s ids.
+Proof.
+  intros s ids [H1 H2 H3 H4] Hnd HF. split; [exact Hnd|]. split; [|split].
+  - eapply Forall_impl; [|exact HF]. cbv beta. intros a Ha. split; [exact Ha | apply H2; exact Ha].
+  - exact H1.
+  - apply slen_pos.
+Qed.
+
+(* free_chain_go with its frame *)
+Lemma free_chain_go_frame : forall ids fuel start s,
+  AllocWf s -> path (fat s) start ids -> NoDup ids ->
+  Forall (fun x => x < nsect s) ids -> (length ids < fuel)%nat ->
+  exists s1,
+    free_chain_go fuel start s = (s1, Ok tt) /\
+    free s1 = free s ++ ids /\ AllocWf s1 /\ meta_same s s1 /\
+    (forall x, ~ In x ids -> nthN (fat s1) x = nthN (fat s) x) /\
+    (forall x, ~ In x (difat s) -> sector_bytes s1 x = sector_bytes s x).
+Proof.
+  induction ids as [|a l IH]; intros fuel start s Hwf Hp Hnd Hall Hfuel.
+  - inversion Hp; subst. destruct fuel as [|fuel]; [cbn in Hfuel; lia|].
+    exists s. cbn [free_chain_go]. rewrite N.eqb_refl, app_nil_r.
+    csplit; try reflexivity; try exact Hwf. apply meta_same_refl.
+  - inversion Hp as [|cur nx l' Hc Hn Hp']; subst.
+    destruct fuel as [|fuel]; [cbn in Hfuel; lia|]. cbn [free_chain_go].
+    destruct (a =? END_OF_CHAIN) eqn:Ea; [apply N.eqb_eq in Ea; contradiction|].
+    assert (Hnext : next a s = (s, Ok nx)) by (unfold next; rewrite bind_get, Hn; reflexivity).
+    rewrite (bind_exec _ _ _ _ _ Hnext).
+    pose proof (WalkProofs.next_of_lt _ _ _ Hn) as Halt.
+    apply WalkProofs.next_of_Ok in Hn. destruct Hn as [Hnth Hrange].
+    assert (Hv : nthN (fat s) a <> Some FREE_SECTOR).
+    { rewrite Hnth. intro E. injection E as E.
+      pose proof WalkProofs.MAXREG_lt_FREE. destruct Hrange as [Hr|[Hr _]]; [|lia].
+      rewrite E in Hr. discriminate Hr. }
+    pose proof (Forall_inv Hall) as Ha. cbv beta in Ha.
+    destruct (wf_backed s Hwf a Halt) as (f & Hd & Hf).
+    rewrite (bind_exec _ _ _ _ _
+               (free_sector_exec s a f Halt Hv Hd Hf (wf_full s Hwf f Hf))).
+    pose proof (free_state_fields s a f Halt)
+      as (Ev & En & Edi & Ed & Efat & Efr & Edirs & _ & _ & Esl & Efps & Eimg).
+    pose proof (free_state_wf s a f Hwf Ha Halt Hf) as Hwf1.
+    inversion Hnd as [|? ? Hni Hnd']; subst.
+    destruct (IH fuel nx (free_state s a f) Hwf1) as (s1 & E1 & F1 & W1 & M1 & T1 & B1).
+    + rewrite Efat. apply path_updN; assumption.
+    + exact Hnd'.
+    + rewrite En. exact (Forall_inv_tail Hall).
+    + cbn [length] in Hfuel. lia.
+    + exists s1. split; [exact E1|]. split.
+      { rewrite F1, Efr, <- app_assoc. reflexivity. }
+      split; [exact W1|]. split.
+      { eapply meta_same_trans; [|exact M1]. unfold meta_same.
+        csplit; try assumption; try reflexivity. rewrite Efat. apply lenN_updN. }
+      split.
+      { intros x Hx. rewrite T1 by (intro Hin; apply Hx; right; exact Hin).
+        rewrite Efat. apply nthN_updN_other. intro E. apply Hx. left. exact E. }
+      { intros x Hx. rewrite B1 by (rewrite Ed; exact Hx).
+        unfold free_state. cbv zeta.
+        change (sector_bytes (w_free ?a ?b) x) with (sector_bytes a x).
+        apply sector_bytes_set_fat_state. intro E. subst x.
+        apply Hx. eapply nthN_In. exact Hd. }
+Qed.
+
+Lemma path_length_fuel : forall fat c l, path fat c l -> (length l < S (S (length fat)))%nat.
+Proof.
+  intros fat c l Hp.
+  pose proof (WalkProofs.bounded_nodup_length _ _ (path_nodup _ _ _ Hp) (WalkProofs.path_lt _ _ _ Hp)) as H.
+  rewrite WalkProofs.lenN_length, Nat2N.id in H. lia.
+Qed.
+
+(* Chain::set_len to fewer sectors: the tail goes to the free stack *)
+Lemma chain_set_len_shrink : forall s start i ids o new_len n',
+  AllocWf s -> path (fat s) start ids -> Forall (fun x => x < nsect s) ids ->
+  0 < new_len -> slen s + new_len < two64 ->
+  (slen s + new_len - 1) / slen s = n' -> n' < lenN ids ->
+  exists s1,
+    chain_set_len (mkChain i ids o) new_len s = (s1, Ok (mkChain i ids o)) /\
+    AllocWf s1 /\ meta_same s s1 /\
+    free s1 = free s ++ dropN n' ids /\
+    path (fat s1) start (takeN n' ids) /\
+    (forall x, ~ In x ids -> nthN (fat s1) x = nthN (fat s) x) /\
+    (forall x, ~ In x (difat s) -> sector_bytes s1 x = sector_bytes s x).
+Proof.
+  intros s start i ids o new_len n' Hwf Hp HF Hpos Hov Hnum Hlt.
+  pose proof (slen_pos s) as Hsp.
+  assert (Hn1 : 1 <= n').
+  { rewrite <- Hnum. assert (0 < (slen s + new_len - 1) / slen s) by (apply N.div_str_pos; lia). lia. }
+  destruct (nthN_lt_Some _ ids (n' - 1) ltac:(lia)) as [sid Hsid].
+  pose proof (takeN_snoc_nth _ _ _ _ Hsid) as Etake.
+  pose proof (dropN_nth _ _ _ _ Hsid) as Edrop.
+  replace (n' - 1 + 1) with n' in * by lia.
+  set (l := takeN (n' - 1) ids) in *. set (freed := dropN n' ids) in *.
+  assert (Eids : ids = l ++ sid :: freed).
+  { rewrite <- Edrop. unfold l. symmetry. apply takeN_dropN_id. }
+  pose proof (path_nodup _ _ _ Hp) as Hnd. rewrite Eids in Hnd.
+  pose proof (NoDup_remove _ _ _ Hnd) as [Hnd' Hni].
+  assert (Hni_l : ~ In sid l) by (intro; apply Hni; apply in_or_app; left; assumption).
+  assert (Hni_f : ~ In sid freed) by (intro; apply Hni; apply in_or_app; right; assumption).
+  assert (Hnd_f : NoDup freed).
+  { clear - Hnd'. induction l as [|a l IH]; [exact Hnd'|]. cbn [app] in Hnd'.
+    inversion Hnd'; subst. apply IH. assumption. }
+  assert (Hdisj_lf : forall x, In x l -> ~ In x freed).
+  { clear - Hnd'. induction l as [|a l IH]; intros x Hx; [destruct Hx|]. cbn [app] in Hnd'.
+    inversion Hnd' as [|? ? Hna Hnd'']; subst. destruct Hx as [<-|Hx].
+    - intro Hin. apply Hna. apply in_or_app. right. exact Hin.
+    - apply IH; assumption. }
+  pose proof Hp as Hp0. rewrite Eids in Hp0.
+  pose proof (path_mid _ _ _ _ _ Hp0) as Hpm.
+  inversion Hpm as [|cur nx l' Hc Hn Hpf]; subst cur l'.
+  pose proof (WalkProofs.next_of_lt _ _ _ Hn) as Hsl.
+  destruct (wf_backed s Hwf sid Hsl) as (f & Hd & Hf).
+  pose proof (set_fat_exec s sid END_OF_CHAIN f ltac:(lia) Hd Hf (wf_full s Hwf f Hf)) as Eset.
+  set (sa := set_fat_state s sid END_OF_CHAIN f) in *.
+  pose proof (set_fat_state_fields s sid END_OF_CHAIN f)
+    as (Ev & En & Edi & Ed & Efat & Efr & Edirs & _ & _ & Esl & Efps & Eimg).
+  fold sa in Ev, En, Edi, Ed, Efat, Efr, Edirs, Esl, Efps, Eimg.
+  rewrite fat_set_lt in Efat by exact Hsl.
+  pose proof (set_fat_state_wf s sid END_OF_CHAIN f Hwf Hsl Hf) as Hwfa. fold sa in Hwfa.
+  pose proof (set_fat_state_meta s sid END_OF_CHAIN f Hsl) as Hma. fold sa in Hma.
+  assert (HFf : Forall (fun x => x < nsect sa) freed).
+  { rewrite En. rewrite Forall_forall in *. intros x Hx. apply HF. rewrite Eids.
+    apply in_or_app. right. right. exact Hx. }
+  assert (Hpa : path (fat sa) nx freed) by (rewrite Efat; apply path_updN; assumption).
+  destruct (free_chain_go_frame freed (S (S (length (fat sa)))) nx sa Hwfa Hpa Hnd_f HFf
+              (path_length_fuel _ _ _ Hpa))
+    as (s1 & E1 & F1 & W1 & M1 & T1 & B1).
+  exists s1. split.
+  { unfold chain_set_len. rewrite bind_get. cbv zeta. cbn [c_ids].
+    destruct (two64 <=? slen s + new_len - 1 + 1) eqn:Q1; [lia|].
+    rewrite Hnum.
+    destruct (n' =? 0) eqn:Q2; [lia|].
+    destruct (n' <=? lenN ids) eqn:Q3; [|lia].
+    destruct (n' <? lenN ids) eqn:Q4; [|lia].
+    rewrite Hsid. unfold free_chain_after.
+    assert (Hnext : next sid s = (s, Ok nx)) by (unfold next; rewrite bind_get, Hn; reflexivity).
+    match goal with |- bind ?m _ s = _ => assert (E : m s = (s1, Ok tt)) end.
+    { rewrite (bind_exec _ _ _ _ _ Hnext). rewrite (bind_exec _ _ _ _ _ Eset).
+      unfold free_chain. rewrite bind_get. exact E1. }
+    rewrite (bind_exec _ _ _ _ _ E). reflexivity. }
+  split; [exact W1|]. split; [eapply meta_same_trans; eassumption|].
+  split; [rewrite F1, Efr; reflexivity|].
+  split.
+  { rewrite Etake. apply (path_ext (fat sa)).
+    - rewrite Efat. eapply path_truncate; [exact Hp0 | exact Hni_l | exact Hsl].
+    - destruct M1 as (_ & _ & _ & _ & _ & _ & M). exact M.
+    - intros x Hx. apply T1. apply in_app_or in Hx. destruct Hx as [Hx|[<-|[]]].
+      + apply Hdisj_lf. exact Hx.
+      + exact Hni_f. }
+  split.
+  { intros x Hx. rewrite T1.
+    - rewrite Efat. apply nthN_updN_other. intro E. apply Hx. rewrite Eids.
+      apply in_or_app. right. left. exact E.
+    - intro Hin. apply Hx. rewrite Eids. apply in_or_app. right. right. exact Hin. }
+  { intros x Hx. rewrite B1 by (rewrite Ed; exact Hx).
+    apply sector_bytes_set_fat_state. intro E. subst x. apply Hx. eapply nthN_In. exact Hd. }
+Qed.
+
+(* ------------------------------------------------------------------ *)
+(* writing the entry back, without assuming the FAT is unchanged        *)
+(* ------------------------------------------------------------------ *)
+
+Lemma finish_gen : forall s1 id e ids1 dids new_len,
+  nthN (dirs s1) id = Some e -> d_type e = TStream ->
+  lenN (utf16 (d_name e)) <= MAX_NAME_LEN ->
+  dir_ids s1 dids -> good_chain s1 dids ->
+  DIR_ENTRY_LEN * lenN (dirs s1) <= slen s1 * lenN dids ->
+  chain_ids_of (fat s1) (d_start e) = Ok ids1 -> good_chain s1 ids1 -> disjoint ids1 dids ->
+  MINI_STREAM_CUTOFF <= new_len -> new_len <= slen s1 * lenN ids1 ->
+  exists s',
+    update_entry id (d_start e) new_len s1 = (s', Ok tt) /\
+    big_content s' id (takeN new_len (chain_content s1 ids1)) /\
+    stream_ids s' id ids1 /\ same_shape s1 s' /\
+    dirs s' = updN (dirs s1) id (set_start_len e (d_start e) new_len) /\
+    (forall x, ~ In x dids -> sector_bytes s' x = sector_bytes s1 x).
+Proof.
+  intros s1 id e ids1 dids new_len He Ht Hname Hd Hgd Hroom Hc Hg Hdisj Hnl Hfit.
+  pose proof (nthN_Some_lt _ _ _ _ He) as Hid.
+  destruct (update_entry_exec s1 id e (d_start e) new_len dids He Hname Hd Hgd)
+    as (s' & Hu & Hdirs' & Hsh' & _ & _ & _ & Hfr').
+  { rewrite DEL_val in *. lia. }
+  pose proof (same_shape_slen _ _ Hsh') as Hsl.
+  pose proof Hsh' as (Hn & Hv & Hi & Hl & Hfat & Hfree & Hdifat & Hds & _).
+  set (e' := set_start_len e (d_start e) new_len) in *.
+  assert (He' : nthN (dirs s') id = Some e')
+    by (rewrite Hdirs'; apply nthN_updN_same; exact Hid).
+  assert (Hcont : chain_content s' ids1 = chain_content s1 ids1).
+  { apply chain_content_ext. intros x Hx. apply Hfr'. apply Hdisj. exact Hx. }
+  exists s'. split; [exact Hu|]. csplit; try assumption.
+  - exists e', ids1. cbn [e' set_start_len d_type d_len d_start].
+    rewrite Hfat, Hsl, Hcont.
+    csplit; try assumption; try reflexivity. eapply good_chain_shape; eassumption.
+  - exists e'. cbn [e' set_start_len d_type d_start]. rewrite Hfat.
+    csplit; assumption.
+Qed.
+
+(* another large stream whose FAT cells and sectors were left alone *)
+Lemma other_stream_frame : forall s s' id' V' ids',
+  big_content s id' V' -> stream_ids s id' ids' ->
+  nthN (dirs s') id' = nthN (dirs s) id' ->
+  lenN (fat s') = lenN (fat s) ->
+  (forall x, In x ids' -> nthN (fat s') x = nthN (fat s) x) ->
+  (forall x, In x ids' -> sector_bytes s' x = sector_bytes s x) ->
+  AllocWf s' -> nsect s <= nsect s' -> slen s' = slen s ->
+  big_content s' id' V' /\ stream_ids s' id' ids'.
+Proof.
+  intros s s' id' V' ids' (e2 & ids2 & He2 & Ht2 & Hc2 & Hch2 & Hg2 & Hle2 & HV2)
+         (e3 & He3 & _ & Hch3) Hdirs Hlen Hfat Hsec Hwf Hns Hsl.
+  rewrite He2 in He3. injection He3 as <-. rewrite Hch2 in Hch3. injection Hch3 as <-.
+  rewrite He2 in Hdirs.
+  pose proof (WalkProofs.chain_ids_path _ _ _ Hch2) as Hp.
+  assert (Hch' : chain_ids_of (fat s') (d_start e2) = Ok ids2).
+  { apply WalkProofs.chain_ids_of_path; [|eapply path_nodup; exact Hp].
+    eapply path_ext; eassumption. }
+  assert (Hg' : good_chain s' ids2).
+  { destruct Hg2 as (Hnd & HF & _). apply good_chain_of_wf; [exact Hwf | exact Hnd |].
+    eapply Forall_impl; [|exact HF]. cbv beta. intros a [Ha _]. lia. }
+  split.
+  - exists e2, ids2. rewrite Hsl, (chain_content_ext s s' ids2 Hsec).
+    csplit; assumption.
+  - exists e2. csplit; assumption.
+Qed.
+
+Lemma resize_content : forall (C V : list byte) old new_len,
+  V = takeN old C -> old <= lenN C -> new_len <= lenN C ->
+  takeN new_len (if old <? new_len then spliceN C old (repeatN 0 (new_len - old)) else C)
+  = takeN new_len V ++ repeatN 0 (new_len - lenN V).
+Proof.
+  intros C V old new_len HV Hold Hnew.
+  assert (HlV : lenN V = old) by (rewrite HV, lenN_takeN; blia).
+  rewrite HlV.
+  destruct (old <? new_len) eqn:E.
+  - replace new_len with (N.max old (old + lenN (repeatN 0 (new_len - old)))) at 1
+      by (rewrite lenN_repeatN; lia).
+    rewrite splice_take by (rewrite ?lenN_repeatN; blia).
+    rewrite <- HV. rewrite spliceN_beyond by blia. rewrite HlV, N.sub_diag.
+    change (repeatN 0 0) with (@nil N). cbn [app].
+    rewrite takeN_all by blia. reflexivity.
+  - replace (new_len - old) with 0 by lia. change (repeatN 0 0) with (@nil N).
+    rewrite app_nil_r. rewrite HV, takeN_takeN.
+    replace (N.min new_len old) with new_len by lia. reflexivity.
+Qed.
+
+Lemma In_takeN : forall A (l : list A) n x, In x (takeN n l) -> In x l.
+Proof.
+  intros A l n x H. rewrite <- (takeN_dropN_id _ l n). apply in_or_app. left. exact H.
+Qed.
+
+Lemma chain_content_app : forall s a b,
+  chain_content s (a ++ b) = chain_content s a ++ chain_content s b.
+Proof. intros s a b. unfold chain_content. rewrite map_app, concat_app. reflexivity. Qed.
+
+Lemma ceil_props : forall sl n, 0 < sl -> 0 < n ->
+  n <= sl * ((sl + n - 1) / sl) /\ sl * ((sl + n - 1) / sl) < n + sl.
+Proof. intros sl n H1 H2. split; nia. Qed.
+
+Lemma overflow_ok : forall s ids new_len,
+  StoreWf s -> good_chain s ids -> new_len <= slen s * lenN ids -> slen s + new_len < two64.
+Proof.
+  intros s ids new_len Hwf Hg Hfit.
+  pose proof (good_chain_count _ _ Hg). pose proof (wf_nsect_u32 s Hwf).
+  destruct (slen_cases s) as [Es|Es]; rewrite Es in *;
+    unfold u32_max in *; rewrite two64_val; nia.
+Qed.
+
+(* resize of a large stream to any large length the chain can hold: sectors
+   beyond ceil(new_len / slen) are released to the free stack, the gained
+   range (if any) is zero-filled *)
+Theorem resize_big_no_alloc : forall s id V ids new_len,
+  big_content s id V -> stream_ids s id ids -> StoreWf s ->
+  MINI_STREAM_CUTOFF <= new_len -> new_len <= slen s * lenN ids ->
+  exists s',
+    resize id new_len s = (s', Ok tt) /\
+    big_content s' id (takeN new_len V ++ repeatN 0 (new_len - lenN V)) /\
+    stream_ids s' id (takeN ((slen s + new_len - 1) / slen s) ids) /\
+    free s' = free s ++ dropN ((slen s + new_len - 1) / slen s) ids /\
+    nsect s' = nsect s /\ AllocWf s' /\
+    (forall id' V' ids', id' <> id -> big_content s id' V' -> stream_ids s id' ids' ->
+       disjoint ids ids' -> big_content s' id' V' /\ stream_ids s' id' ids').
+Proof.
+  intros s id V ids new_len HB Hsi Hwf Hnl Hfit.
+  pose proof (slen_pos s) as Hsp.
+  assert (Hnl0 : 0 < new_len) by (rewrite CUTOFF_val in Hnl; lia).
+  destruct (ceil_props (slen s) new_len Hsp Hnl0) as [Hc1 Hc2].
+  set (n' := (slen s + new_len - 1) / slen s) in *.
+  assert (Hn'le : n' <= lenN ids) by nia.
+  destruct (N.eq_dec n' (lenN ids)) as [Heq|Hneq].
+  { (* same number of sectors *)
+    destruct (resize_big_same_count s id V ids new_len HB Hsi Hwf Hnl Hfit ltac:(nia))
+      as (s' & R & HB' & Hsi' & Hwf' & Hsh' & Hoth).
+    exists s'. rewrite Heq, (takeN_all _ ids), (dropN_all _ ids), app_nil_r by lia.
+    destruct Hsh' as (A1 & _ & _ & _ & _ & A6 & _).
+    csplit; try assumption. apply (sw_alloc _ Hwf'). }
+  assert (Hlt : n' < lenN ids) by lia.
+  pose proof Hsi as (e0 & He0 & _ & Hc0).
+  pose proof HB as (e & ids' & He & Ht & Hcut & Hc & Hg & Hle & HV).
+  rewrite He in He0. injection He0 as <-. rewrite Hc in Hc0. injection Hc0 as ->.
+  pose proof (big_content_len _ _ _ _ HB He) as HlV.
+  pose proof (good_chain_len _ _ Hg) as HCL.
+  destruct (chain_ids_head _ _ _ Hc (ids_nonempty s ids _ Hcut Hle)) as (Hst & t & Eids).
+  pose proof (WalkProofs.chain_ids_path _ _ _ Hc) as Hp.
+  pose proof (path_nodup _ _ _ Hp) as Hnd.
+  assert (HF : Forall (fun x => x < nsect s) ids).
+  { destruct Hg as (_ & HF & _). eapply Forall_impl; [|exact HF]. cbv beta. tauto. }
+  assert (Hbig : big_ids s id ids) by (exists e; csplit; assumption).
+  destruct (sw_dir s Hwf) as (dids & Hd & Hgd & Hroom).
+  pose proof (sw_dir_disj s Hwf id ids dids Hbig Hd) as Hdisj.
+  pose proof (overflow_ok s ids new_len Hwf Hg Hfit) as Hov.
+  (* Chain::set_len *)
+  destruct (chain_set_len_shrink s (d_start e) IZero ids 0 new_len n' (sw_alloc s Hwf) Hp HF
+              Hnl0 Hov eq_refl Hlt)
+    as (s1 & Hset & W1 & M1 & F1 & P1 & T1 & B1).
+  pose proof (meta_same_slen _ _ M1) as Hsl1.
+  pose proof M1 as (Mv & Mn & Mdifat & Mdirs & Mds & Mimg & Mfl).
+  assert (Hg1 : good_chain s1 ids).
+  { apply good_chain_of_wf; [exact W1 | exact Hnd | rewrite Mn; exact HF]. }
+  assert (Hids_difat : forall x, In x ids -> ~ In x (difat s)).
+  { intros x Hx Hin. destruct (sw_difat_disj s Hwf x Hin) as [D _]. exact (D id ids Hbig Hx). }
+  assert (Hcont1 : chain_content s1 ids = chain_content s ids).
+  { apply chain_content_ext. intros x Hx. apply B1. apply Hids_difat. exact Hx. }
+  (* zero fill *)
+  destruct (zero_fill_chain_spec s1 (mkChain IZero ids 0) (d_len e) new_len Hg1)
+    as (s2 & c2 & Hz & Hids2 & Hcont2 & Hg2 & Hsh2 & Hd2 & Hfr2).
+  { unfold chain_len. cbn [c_ids]. rewrite Hsl1. exact Hfit. }
+  cbn [c_ids] in *.
+  pose proof (same_shape_slen _ _ Hsh2) as Hsl2.
+  pose proof Hsh2 as (Sn & Sv & Si & Sl & Sfat & Sfree & Sdifat & Sds & _).
+  pose proof (AllocWf_shape _ _ W1 Hsh2) as W2.
+  set (kept := takeN n' ids) in *.
+  assert (Hkept_in : forall x, In x kept -> In x ids) by (intros x Hx; eapply In_takeN; exact Hx).
+  assert (Hch2 : chain_ids_of (fat s2) (d_start e) = Ok kept).
+  { rewrite Sfat. apply WalkProofs.chain_ids_of_path; [exact P1 | eapply path_nodup; exact P1]. }
+  assert (Hgk : good_chain s2 kept).
+  { apply good_chain_of_wf; [exact W2 | eapply path_nodup; exact P1 |].
+    rewrite Forall_forall in *. intros x Hx. rewrite Sn, Mn. apply HF. apply Hkept_in. exact Hx. }
+  assert (Hdir2 : dir_ids s2 dids).
+  { unfold dir_ids in *. rewrite Sfat, Sds, Mds.
+    pose proof (WalkProofs.chain_ids_path _ _ _ Hd) as Hpd.
+    apply WalkProofs.chain_ids_of_path; [|eapply path_nodup; exact Hpd].
+    apply (path_ext (fat s)); [exact Hpd | exact Mfl |].
+    intros x Hx. apply T1. intro Hin. exact (Hdisj x Hin Hx). }
+  assert (Hgd2 : good_chain s2 dids).
+  { destruct Hgd as (Hndd & HFd & _). apply good_chain_of_wf; [exact W2 | exact Hndd |].
+    eapply Forall_impl; [|exact HFd]. cbv beta. intros a [Ha _]. rewrite Sn, Mn. exact Ha. }
+  assert (Hlk : lenN kept = n') by (unfold kept; rewrite lenN_takeN; lia).
+  destruct (finish_gen s2 id e kept dids new_len)
+    as (s' & Hu & HB' & Hsi' & Hsh' & Hdirs' & Hfr'); try assumption.
+  { rewrite Hd2, Mdirs. exact He. }
+  { eapply sw_names; eassumption. }
+  { rewrite Hd2, Mdirs, Hsl2, Hsl1. exact Hroom. }
+  { intros x Hx. apply Hdisj. apply Hkept_in. exact Hx. }
+  { rewrite Hsl2, Hsl1, Hlk. exact Hc1. }
+  pose proof Hsh' as (Zn & Zv & Zi & Zl & Zfat & Zfree & Zdifat & Zds & _).
+  pose proof (AllocWf_shape _ _ W2 Hsh') as W'.
+  exists s'. split; [|split; [|split; [exact Hsi'|split; [|split; [|split; [exact W'|]]]]]].
+  - unfold resize.
+    rewrite (bind_exec _ _ _ _ _ (stream_entry_exec s id e He Ht)).
+    cbv beta iota zeta.
+    match goal with |- bind ?m _ s = _ => assert (E : m s = (s2, Ok (d_start e))) end.
+    { destruct (d_start e =? END_OF_CHAIN) eqn:E2; [apply N.eqb_eq in E2; contradiction|].
+      destruct (d_len e <? MINI_STREAM_CUTOFF) eqn:E3; [lia|].
+      destruct (new_len =? 0) eqn:E4; [lia|].
+      destruct (new_len <? MINI_STREAM_CUTOFF) eqn:E5; [lia|].
+      rewrite (bind_exec _ _ _ _ _ (chain_new_exec s (d_start e) IZero ids Hc)).
+      rewrite bind_get.
+      rewrite (bind_exec _ _ _ _ _ Hset).
+      unfold chain_len at 1. cbn [c_ids].
+      replace (N.min new_len (slen s * lenN ids)) with new_len by lia.
+      rewrite (bind_exec _ _ _ _ _ Hz).
+      unfold chain_start. rewrite Hids2, Eids, N.eqb_refl. reflexivity. }
+    rewrite (bind_exec _ _ _ _ _ E). exact Hu.
+  - assert (Esplit : chain_content s2 ids = chain_content s2 kept ++ chain_content s2 (dropN n' ids)).
+    { rewrite <- chain_content_app. unfold kept. rewrite takeN_dropN_id. reflexivity. }
+    assert (Ek : takeN new_len (chain_content s2 kept) = takeN new_len (chain_content s2 ids)).
+    { rewrite Esplit. rewrite takeN_app_le; [reflexivity|].
+      rewrite (good_chain_len _ _ Hgk), Hlk, Hsl2, Hsl1. exact Hc1. }
+    rewrite Ek, Hcont2, Hcont1 in HB'.
+    rewrite (resize_content _ V _ _ HV) in HB' by blia. exact HB'.
+  - rewrite Zfree, Sfree. exact F1.
+  - rewrite Zn, Sn. exact Mn.
+  - intros id' V' ids2 Hne HB2 Hsi2 Hdj.
+    assert (Hbig2 : big_ids s id' ids2).
+    { destruct HB2 as (e2 & l2 & A1 & A2 & A3 & A4 & _). destruct Hsi2 as (e3 & A5 & _ & A6).
+      rewrite A1 in A5. injection A5 as <-. rewrite A4 in A6. injection A6 as <-.
+      exists e2. csplit; assumption. }
+    pose proof (sw_dir_disj s Hwf id' ids2 dids Hbig2 Hd) as Hdisj2.
+    apply (other_stream_frame s s' id' V' ids2 HB2 Hsi2).
+    + rewrite Hdirs', nthN_updN_other by lia. rewrite Hd2, Mdirs. reflexivity.
+    + rewrite Zfat, Sfat. exact Mfl.
+    + intros x Hx. rewrite Zfat, Sfat. apply T1. intro Hin. exact (Hdj x Hin Hx).
+    + intros x Hx. rewrite Hfr' by (apply Hdisj2; exact Hx).
+      rewrite Hfr2 by (intro Hin; exact (Hdj x Hin Hx)).
+      apply B1. intro Hin. destruct (sw_difat_disj s Hwf x Hin) as [D _]. exact (D id' ids2 Hbig2 Hx).
+    + exact W'.
+    + rewrite Zn, Sn, Mn. lia.
+    + rewrite (same_shape_slen _ _ Hsh'), Hsl2. exact Hsl1.
+Qed.
+
+(* S4, general: truncation of a large stream to a large length *)
+Theorem resize_big_shrink : forall s id V ids new_len,
+  big_content s id V -> stream_ids s id ids -> StoreWf s ->
+  MINI_STREAM_CUTOFF <= new_len -> new_len < lenN V ->
+  exists s',
+    resize id new_len s = (s', Ok tt) /\
+    big_content s' id (takeN new_len V) /\
+    stream_ids s' id (takeN ((slen s + new_len - 1) / slen s) ids) /\
+    free s' = free s ++ dropN ((slen s + new_len - 1) / slen s) ids /\
+    nsect s' = nsect s /\ AllocWf s' /\
+    (forall id' V' ids', id' <> id -> big_content s id' V' -> stream_ids s id' ids' ->
+       disjoint ids ids' -> big_content s' id' V' /\ stream_ids s' id' ids').
+Proof.
+  intros s id V ids new_len HB Hsi Hwf Hnl Hlt.
+  pose proof HB as (e & ids' & He & Ht & Hcut & Hc & Hg & Hle & HV).
+  pose proof Hsi as (e0 & He0 & _ & Hc0).
+  rewrite He in He0. injection He0 as <-. rewrite Hc in Hc0. injection Hc0 as ->.
+  pose proof (big_content_len _ _ _ _ HB He) as HlV.
+  destruct (resize_big_no_alloc s id V ids new_len HB Hsi Hwf Hnl ltac:(blia))
+    as (s' & H1 & H2 & H3).
+  exists s'. split; [exact H1|]. split; [|exact H3].
+  replace (new_len - lenN V) with 0 in H2 by blia.
+  change (repeatN 0 0) with (@nil N) in H2. rewrite app_nil_r in H2. exact H2.
+Qed.
+
+(* ================================================================== *)
+(* S6: growth that needs new sectors, taken from the free stack         *)
+(* ================================================================== *)
+
+Lemma spliceN_full : forall (l b : list byte), lenN b = lenN l -> spliceN l 0 b = b.
+Proof.
+  intros l b H. unfold spliceN. rewrite takeN_0. cbn [lenN app]. rewrite N.sub_diag.
+  change (repeatN 0 0) with (@nil N). cbn [app]. rewrite N.add_0_l.
+  rewrite dropN_all by blia. apply app_nil_r.
+Qed.
+
+Lemma repeatN_add : forall A (x : A) a b, repeatN x (a + b) = repeatN x a ++ repeatN x b.
+Proof.
+  intros A x a b. induction a as [|a IH] using N.peano_ind.
+  - reflexivity.
+  - replace (N.succ a + b) with (N.succ (a + b)) by lia.
+    rewrite !repeatN_succ, IH. reflexivity.
+Qed.
+
+Lemma find_last_at_end : forall fat last,
+  next_of fat last = Ok END_OF_CHAIN ->
+  find_last_go (S (S (length fat))) fat 0 last = Ok last.
+Proof.
+  intros fat last H. cbn [find_last_go]. rewrite H. cbn [rbind].
+  rewrite N.eqb_refl. reflexivity.
+Qed.
+
+(* one step of Chain growth when the free stack is not empty *)
+Lemma extend_chain_reuse : forall s start ids last sid,
+  AllocWf s -> nsect s <= MAX_REGULAR_SECTOR + 1 ->
+  path (fat s) start ids -> lastN ids = Some last ->
+  lastN (free s) = Some sid -> ~ In sid ids -> ~ In sid (difat s) ->
+  exists s',
+    extend_chain last IZero s = (s', Ok sid) /\
+    AllocWf s' /\ meta_same s s' /\ free s' = pop_last (free s) /\
+    path (fat s') start (ids ++ [sid]) /\
+    (forall x, ~ In x ids -> x <> sid -> nthN (fat s') x = nthN (fat s) x) /\
+    (forall x, x <> sid -> ~ In x (difat s) -> sector_bytes s' x = sector_bytes s x) /\
+    sector_bytes s' sid = repeatN 0 (slen s).
+Proof.
+  intros s start ids last sid Hwf Hns Hp Hlast Hfree Hni Hnd.
+  pose proof (lastN_Some_snoc _ _ _ Hlast) as Eids.
+  set (l := pop_last ids) in *.
+  pose proof Hp as Hp0. rewrite Eids in Hp0.
+  pose proof (path_last_EOC _ _ _ _ Hp0) as Hnx.
+  pose proof (WalkProofs.next_of_lt _ _ _ Hnx) as Hlast_lt.
+  pose proof (path_nodup _ _ _ Hp0) as Hnodup.
+  assert (Hlast_l : ~ In last l).
+  { apply NoDup_remove_2 in Hnodup. rewrite app_nil_r in Hnodup. exact Hnodup. }
+  assert (Hlast_ne : last <> END_OF_CHAIN).
+  { apply path_mid in Hp0. inversion Hp0 as [|cur nx l' Hc Hn' Hp']. exact Hc. }
+  assert (Hsid_free : In sid (free s)).
+  { rewrite (lastN_Some_snoc _ _ _ Hfree). apply in_or_app. right. left. reflexivity. }
+  destruct (wf_free s Hwf sid Hsid_free) as [Hsid_n Hsid_f].
+  destruct (wf_backed s Hwf sid Hsid_f) as (f & Hd & Hf).
+  (* allocate_sector *)
+  pose proof (allocate_reuse_exec IZero s sid f Hfree Hsid_n Hsid_f Hd Hf (wf_full s Hwf)) as Ealloc.
+  destruct (allocate_reuses IZero s) as (sid' & sr' & Ea' & _ & _ & _ & _ & _ & _ & _ & Wr).
+  { intro E. rewrite E in Hfree. discriminate. }
+  { exact (wf_free s Hwf). } { exact (wf_backed s Hwf). } { exact (wf_img s Hwf). }
+  { exact (wf_full s Hwf). }
+  rewrite Ealloc in Ea'. injection Ea' as <- <-.
+  set (sr := reuse_state IZero s sid f) in *.
+  pose proof (reuse_state_fields IZero s sid f Hsid_f)
+    as (Rv & Rn & Rdi & Rd & Rfat & Rfr & Rdirs & _ & _ & Rsl & Rfps & Rimg).
+  fold sr in Rv, Rn, Rdi, Rd, Rfat, Rfr, Rdirs, Rsl, Rfps, Rimg.
+  assert (Rds : dir_start sr = dir_start s) by reflexivity.
+  (* set_fat last sid *)
+  assert (Hlast_r : last < lenN (fat sr)) by (rewrite Rfat, lenN_updN; exact Hlast_lt).
+  destruct (wf_backed sr Wr last Hlast_r) as (f' & Hd' & Hf').
+  pose proof (set_fat_exec sr last sid f' ltac:(lia) Hd' Hf' (wf_full sr Wr f' Hf')) as Eset.
+  set (s' := set_fat_state sr last sid f') in *.
+  pose proof (set_fat_state_fields sr last sid f')
+    as (Ev & En & Edi & Ed & Efat & Efr & Edirs & _ & _ & Esl & Efps & Eimg).
+  fold s' in Ev, En, Edi, Ed, Efat, Efr, Edirs, Esl, Efps, Eimg.
+  rewrite fat_set_lt in Efat by exact Hlast_r.
+  assert (Eds : dir_start s' = dir_start sr) by reflexivity.
+  assert (Hf_in : In f (difat s)) by (eapply nthN_In; exact Hd).
+  assert (Hf'_in : In f' (difat s)) by (rewrite <- Rd; eapply nthN_In; exact Hd').
+  exists s'. split.
+  { unfold extend_chain.
+    destruct (last =? END_OF_CHAIN) eqn:E; [apply N.eqb_eq in E; contradiction|].
+    rewrite bind_get. rewrite (find_last_at_end _ _ Hnx). rewrite bind_lift_ok.
+    rewrite (bind_exec _ _ _ _ _ Ealloc). rewrite (bind_exec _ _ _ _ _ Eset). reflexivity. }
+  split; [apply set_fat_state_wf; assumption|].
+  split.
+  { unfold meta_same. csplit; try congruence.
+    rewrite Efat, !lenN_updN, Rfat, lenN_updN. reflexivity. }
+  split; [rewrite Efr; exact Rfr|].
+  split.
+  { rewrite Efat, Rfat. rewrite Eids, <- app_assoc. cbn [app].
+    apply path_extend.
+    - apply path_updN; [exact Hp0|]. rewrite <- Eids. exact Hni.
+    - exact Hlast_l.
+    - intro E. apply Hni. rewrite Eids. apply in_or_app. right. left. exact E.
+    - intro Hin. apply Hni. rewrite Eids. apply in_or_app. left. exact Hin.
+    - apply nthN_updN_same. exact Hsid_f.
+    - rewrite EOC_val. rewrite MAXREG_val in Hns. lia.
+    - lia.
+    - rewrite lenN_updN. exact Hsid_f. }
+  split.
+  { intros x Hx Hxs. rewrite Efat, Rfat.
+    rewrite nthN_updN_other.
+    - apply nthN_updN_other. intro E. apply Hxs. symmetry. exact E.
+    - intro E. apply Hx. rewrite Eids. apply in_or_app. right. left. exact E. }
+  split.
+  { intros x Hxs Hxd. unfold s'.
+    rewrite sector_bytes_set_fat_state by (intro E; subst x; contradiction).
+    unfold sr, reuse_state, init_state.
+    rewrite sector_bytes_wr_other by exact Hxs.
+    rewrite sector_bytes_set_fat_state by (intro E; subst x; contradiction).
+    reflexivity. }
+  { unfold s'. rewrite sector_bytes_set_fat_state by (intro E; subst f'; contradiction).
+    unfold sr, reuse_state, init_state.
+    set (s0 := set_fat_state (w_free s (pop_last (free s))) sid END_OF_CHAIN f).
+    assert (Hl0 : lenN (sector_bytes s0 sid) = slen s0).
+    { unfold s0. rewrite sector_bytes_set_fat_state by (intro E; subst f; contradiction).
+      change (sector_bytes (w_free s (pop_last (free s))) sid) with (sector_bytes s sid).
+      exact (wf_full s Hwf sid Hsid_n). }
+    rewrite sector_bytes_wr_same by exact Hl0.
+    rewrite spliceN_full by (rewrite lenN_init_bytes, Hl0; reflexivity).
+    reflexivity. }
+Qed.
+
+Lemma chain_grow_reuse : forall nw s start ids base o,
+  AllocWf s -> nsect s <= MAX_REGULAR_SECTOR + 1 -> ids <> [] ->
+  path (fat s) start ids ->
+  free s = base ++ rev nw -> NoDup (free s) ->
+  (forall x, In x nw -> ~ In x ids /\ ~ In x (difat s)) ->
+  exists s',
+    chain_grow (length nw) (mkChain IZero ids o) s = (s', Ok (mkChain IZero (ids ++ nw) o)) /\
+    AllocWf s' /\ meta_same s s' /\ free s' = base /\
+    path (fat s') start (ids ++ nw) /\
+    (forall x, ~ In x ids -> ~ In x nw -> nthN (fat s') x = nthN (fat s) x) /\
+    (forall x, ~ In x nw -> ~ In x (difat s) -> sector_bytes s' x = sector_bytes s x) /\
+    (forall x, In x nw -> sector_bytes s' x = repeatN 0 (slen s)).
+Proof.
+  induction nw as [|a nw IH]; intros s start ids base o Hwf Hns Hne Hp Hfree Hnd Hnew.
+  - exists s. cbn [length chain_grow]. rewrite app_nil_r.
+    csplit; try reflexivity; try exact Hwf; try exact Hp.
+    + apply meta_same_refl.
+    + cbn [rev] in Hfree. rewrite app_nil_r in Hfree. exact Hfree.
+    + intros x [].
+  - cbn [rev] in Hfree. rewrite app_assoc in Hfree.
+    assert (Hlf : lastN (free s) = Some a) by (rewrite Hfree; apply lastN_snoc).
+    destruct (exists_last Hne) as (l & last & El).
+    assert (Hlast : lastN ids = Some last) by (rewrite El; apply lastN_snoc).
+    destruct (Hnew a (or_introl eq_refl)) as [Ha_ids Ha_difat].
+    destruct (extend_chain_reuse s start ids last a Hwf Hns Hp Hlast Hlf Ha_ids Ha_difat)
+      as (s1 & E1 & W1 & M1 & F1 & P1 & T1 & B1 & Z1).
+    pose proof M1 as (Mv & Mn & Mdifat & Mdirs & Mds & Mimg & Mfl).
+    pose proof (meta_same_slen _ _ M1) as Hsl1.
+    rewrite Hfree, pop_last_snoc in F1.
+    rewrite Hfree in Hnd.
+    pose proof (NoDup_remove_1 _ _ _ Hnd) as Hnd1. rewrite app_nil_r in Hnd1.
+    pose proof (NoDup_remove_2 _ _ _ Hnd) as Ha_rest. rewrite app_nil_r in Ha_rest.
+    assert (Ha_nw : ~ In a nw).
+    { intro Hin. apply Ha_rest. apply in_or_app. right. apply in_rev in Hin. exact Hin. }
+    destruct (IH s1 start (ids ++ [a]) base o W1) as (s' & E' & W' & M' & F' & P' & T' & B' & Z').
+    + rewrite Mn. exact Hns.
+    + intro E. apply app_eq_nil in E. destruct E as [_ E]. discriminate.
+    + exact P1.
+    + exact F1.
+    + rewrite F1. exact Hnd1.
+    + intros x Hx. destruct (Hnew x (or_intror Hx)) as [Hx1 Hx2]. split.
+      * intro Hin. apply in_app_or in Hin. destruct Hin as [Hin|[<-|[]]]; [contradiction|].
+        contradiction.
+      * rewrite Mdifat. exact Hx2.
+    + exists s'. cbn [length chain_grow]. cbn [c_ids c_init c_off].
+      rewrite Hlast. rewrite (bind_exec _ _ _ _ _ E1).
+      rewrite <- app_assoc in E', P'. cbn [app] in E', P'.
+      split; [exact E'|]. split; [exact W'|].
+      split; [eapply meta_same_trans; eassumption|]. split; [exact F'|].
+      split; [exact P'|].
+      split; [|split].
+      * intros x Hx1 Hx2. rewrite T'.
+        -- apply T1; [exact Hx1|]. intro E. apply Hx2. left. symmetry. exact E.
+        -- intro Hin. apply in_app_or in Hin. destruct Hin as [Hin|[<-|[]]]; [contradiction|].
+           apply Hx2. left. reflexivity.
+        -- intro Hin. apply Hx2. right. exact Hin.
+      * intros x Hx1 Hx2. rewrite B'.
+        -- apply B1; [|exact Hx2]. intro E. apply Hx1. left. symmetry. exact E.
+        -- intro Hin. apply Hx1. right. exact Hin.
+        -- rewrite Mdifat. exact Hx2.
+      * intros x [<-|Hx].
+        -- rewrite B' by (try rewrite Mdifat; assumption). exact Z1.
+        -- rewrite Z' by exact Hx. rewrite Hsl1. reflexivity.
+Qed.
+
+Lemma chain_set_len_grow : forall s c new_len,
+  slen s + new_len < two64 -> 0 < new_len ->
+  lenN (c_ids c) < (slen s + new_len - 1) / slen s ->
+  chain_set_len c new_len s
+  = chain_grow (N.to_nat ((slen s + new_len - 1) / slen s - lenN (c_ids c))) c s.
+Proof.
+  intros s c new_len Hov Hpos Hgt. unfold chain_set_len. rewrite bind_get. cbv zeta.
+  destruct (two64 <=? slen s + new_len - 1 + 1) eqn:E1; [lia|].
+  destruct ((slen s + new_len - 1) / slen s =? 0) eqn:E2; [lia|].
+  destruct ((slen s + new_len - 1) / slen s <=? lenN (c_ids c)) eqn:E3; [lia|].
+  reflexivity.
+Qed.
+
+Lemma zeros_content : forall s sl nw,
+  (forall x, In x nw -> sector_bytes s x = repeatN 0 sl) ->
+  chain_content s nw = repeatN 0 (sl * lenN nw).
+Proof.
+  intros s sl nw. induction nw as [|a nw IH]; intro H.
+  - cbn [lenN]. rewrite N.mul_0_r. reflexivity.
+  - rewrite chain_content_cons. rewrite (H a (or_introl eq_refl)).
+    rewrite IH by (intros x Hx; apply H; right; exact Hx).
+    cbn [lenN]. replace (sl * N.succ (lenN nw)) with (sl + sl * lenN nw) by lia.
+    symmetry. apply repeatN_add.
+Qed.
+
+Lemma grow_content : forall (C V : list byte) old z,
+  V = takeN old C -> old <= lenN C ->
+  (if old <? lenN C then spliceN (C ++ repeatN 0 z) old (repeatN 0 (lenN C - old))
+   else C ++ repeatN 0 z)
+  = V ++ repeatN 0 (lenN C - old + z).
+Proof.
+  intros C V old z HV Hold.
+  destruct (old <? lenN C) eqn:E.
+  - rewrite spliceN_app_le by (rewrite lenN_repeatN; blia).
+    rewrite spliceN_inside by blia. rewrite lenN_repeatN.
+    rewrite dropN_all by blia. rewrite app_nil_r, <- HV, <- app_assoc.
+    rewrite repeatN_add. reflexivity.
+  - replace (lenN C - old) with 0 by blia. rewrite N.add_0_l.
+    rewrite HV, takeN_all by blia. reflexivity.
+Qed.
+
+Lemma NoDup_app_r : forall (a b : list N), NoDup (a ++ b) -> NoDup b.
+Proof.
+  intros a b H. induction a as [|x a IH]; [exact H|]. cbn [app] in H.
+  inversion H; subst. apply IH. assumption.
+Qed.
+
+(* S6: growth that needs k = lenN nw new sectors, in the case where the free
+   stack holds at least k sectors: they are popped (last first, [rev nw] is the
+   top of the stack), zero-initialised (init_bytes IZero) and linked after the
+   chain; the tail of the old last sector is zero-filled.  The complementary
+   case (empty free stack: the file grows, possibly by a FAT sector too) is not
+   covered here. *)
+Theorem resize_big_grow_zero_new_sectors : forall s id V ids new_len base nw,
+  big_content s id V -> stream_ids s id ids -> StoreWf s ->
+  slen s * lenN ids < new_len ->
+  free s = base ++ rev nw ->
+  lenN ids + lenN nw = (slen s + new_len - 1) / slen s ->
+  exists s',
+    resize id new_len s = (s', Ok tt) /\
+    big_content s' id (V ++ repeatN 0 (new_len - lenN V)) /\
+    stream_ids s' id (ids ++ nw) /\
+    free s' = base /\ nsect s' = nsect s /\ AllocWf s' /\
+    (forall id' V' ids', id' <> id -> big_content s id' V' -> stream_ids s id' ids' ->
+       disjoint ids ids' -> big_content s' id' V' /\ stream_ids s' id' ids').
+Proof.
+  intros s id V ids new_len base nw HB Hsi Hwf Hgt Hfree Hcount.
+  pose proof (slen_pos s) as Hsp.
+  pose proof Hsi as (e0 & He0 & _ & Hc0).
+  pose proof HB as (e & ids' & He & Ht & Hcut & Hc & Hg & Hle & HV).
+  rewrite He in He0. injection He0 as <-. rewrite Hc in Hc0. injection Hc0 as ->.
+  pose proof (big_content_len _ _ _ _ HB He) as HlV.
+  pose proof (good_chain_len _ _ Hg) as HCL.
+  assert (Hnl : MINI_STREAM_CUTOFF <= new_len) by lia.
+  assert (Hnl0 : 0 < new_len) by (rewrite CUTOFF_val in Hnl; lia).
+  destruct (ceil_props (slen s) new_len Hsp Hnl0) as [Hc1 Hc2].
+  rewrite <- Hcount in Hc1, Hc2.
+  pose proof (ids_nonempty s ids _ Hcut Hle) as Hne.
+  destruct (chain_ids_head _ _ _ Hc Hne) as (Hst & t & Eids).
+  pose proof (WalkProofs.chain_ids_path _ _ _ Hc) as Hp.
+  pose proof (path_nodup _ _ _ Hp) as Hnd.
+  assert (HF : Forall (fun x => x < nsect s) ids).
+  { destruct Hg as (_ & HF & _). eapply Forall_impl; [|exact HF]. cbv beta. tauto. }
+  assert (Hbig : big_ids s id ids) by (exists e; csplit; assumption).
+  destruct (sw_dir s Hwf) as (dids & Hd & Hgd & Hroom).
+  pose proof (sw_dir_disj s Hwf id ids dids Hbig Hd) as Hdisj.
+  pose proof (sw_alloc s Hwf) as Wa.
+  assert (Hnw_free : forall x, In x nw -> In x (free s)).
+  { intros x Hx. rewrite Hfree. apply in_or_app. right. apply in_rev in Hx. exact Hx. }
+  assert (Hnw_nd : NoDup nw).
+  { pose proof (sw_free_nodup s Hwf) as H. rewrite Hfree in H.
+    apply NoDup_app_r in H. apply NoDup_rev in H. rewrite rev_involutive in H. exact H. }
+  assert (Hnw_lt : Forall (fun x => x < nsect s) nw).
+  { rewrite Forall_forall. intros x Hx. apply (wf_free s Wa). apply Hnw_free. exact Hx. }
+  assert (Hnew : forall x, In x nw -> ~ In x ids /\ ~ In x (difat s)).
+  { intros x Hx. destruct (sw_free_disj s Hwf x (Hnw_free x Hx)) as (D1 & _ & D3).
+    split; [exact (D1 id ids Hbig) | exact D3]. }
+  assert (Hov : slen s + new_len < two64).
+  { pose proof (good_chain_count _ _ Hg) as B1.
+    pose proof (WalkProofs.bounded_nodup_length _ _ Hnw_nd Hnw_lt) as B2.
+    assert (B2' : lenN nw <= nsect s) by (rewrite WalkProofs.lenN_length; lia).
+    pose proof (wf_nsect_u32 s Hwf) as B3.
+    destruct (slen_cases s) as [Es|Es]; rewrite Es in *;
+      unfold u32_max in *; rewrite two64_val; nia. }
+  (* Chain::set_len *)
+  destruct (chain_grow_reuse nw s (d_start e) ids base 0 Wa (sw_nsect s Hwf) Hne Hp Hfree
+              (sw_free_nodup s Hwf) Hnew)
+    as (s1 & Hgrow & W1 & M1 & F1 & P1 & T1 & B1 & Z1).
+  pose proof (meta_same_slen _ _ M1) as Hsl1.
+  pose proof M1 as (Mv & Mn & Mdifat & Mdirs & Mds & Mimg & Mfl).
+  assert (HFall : Forall (fun x => x < nsect s) (ids ++ nw)).
+  { apply Forall_app. split; assumption. }
+  assert (Hg1 : good_chain s1 (ids ++ nw)).
+  { apply good_chain_of_wf; [exact W1 | eapply path_nodup; exact P1 | rewrite Mn; exact HFall]. }
+  assert (Hids_difat : forall x, In x ids -> ~ In x (difat s)).
+  { intros x Hx Hin. destruct (sw_difat_disj s Hwf x Hin) as [D _]. exact (D id ids Hbig Hx). }
+  assert (Hcont1 : chain_content s1 (ids ++ nw)
+                   = chain_content s ids ++ repeatN 0 (slen s * lenN nw)).
+  { rewrite chain_content_app. f_equal.
+    - apply chain_content_ext. intros x Hx. apply B1.
+      + intro Hin. destruct (Hnew x Hin) as [D _]. contradiction.
+      + apply Hids_difat. exact Hx.
+    - apply zeros_content. exact Z1. }
+  (* zero fill of the tail of the old last sector *)
+  destruct (zero_fill_chain_spec s1 (mkChain IZero (ids ++ nw) 0) (d_len e) (slen s * lenN ids) Hg1)
+    as (s2 & c2 & Hz & Hids2 & Hcont2 & Hg2 & Hsh2 & Hd2 & Hfr2).
+  { unfold chain_len. cbn [c_ids]. rewrite Hsl1, lenN_app. nia. }
+  cbn [c_ids] in *.
+  pose proof (same_shape_slen _ _ Hsh2) as Hsl2.
+  pose proof Hsh2 as (Sn & Sv & Si & Sl & Sfat & Sfree & Sdifat & Sds & _).
+  pose proof (AllocWf_shape _ _ W1 Hsh2) as W2.
+  assert (Hch2 : chain_ids_of (fat s2) (d_start e) = Ok (ids ++ nw)).
+  { rewrite Sfat. apply WalkProofs.chain_ids_of_path; [exact P1 | eapply path_nodup; exact P1]. }
+  assert (Hdids_nw : forall x, In x dids -> ~ In x nw).
+  { intros x Hx Hin. destruct (sw_free_disj s Hwf x (Hnw_free x Hin)) as (_ & D2 & _).
+    exact (D2 dids Hd Hx). }
+  assert (Hdir2 : dir_ids s2 dids).
+  { unfold dir_ids in *. rewrite Sfat, Sds, Mds.
+    pose proof (WalkProofs.chain_ids_path _ _ _ Hd) as Hpd.
+    apply WalkProofs.chain_ids_of_path; [|eapply path_nodup; exact Hpd].
+    apply (path_ext (fat s)); [exact Hpd | exact Mfl |].
+    intros x Hx. apply T1; [intro Hin; exact (Hdisj x Hin Hx) | apply Hdids_nw; exact Hx]. }
+  assert (Hgd2 : good_chain s2 dids).
+  { destruct Hgd as (Hndd & HFd & _). apply good_chain_of_wf; [exact W2 | exact Hndd |].
+    eapply Forall_impl; [|exact HFd]. cbv beta. intros a [Ha _]. rewrite Sn, Mn. exact Ha. }
+  destruct (finish_gen s2 id e (ids ++ nw) dids new_len)
+    as (s' & Hu & HB' & Hsi' & Hsh' & Hdirs' & Hfr'); try assumption.
+  { rewrite Hd2, Mdirs. exact He. }
+  { eapply sw_names; eassumption. }
+  { rewrite Hd2, Mdirs, Hsl2, Hsl1. exact Hroom. }
+  { intros x Hx Hin. apply in_app_or in Hx. destruct Hx as [Hx|Hx].
+    - exact (Hdisj x Hx Hin).
+    - exact (Hdids_nw x Hin Hx). }
+  { rewrite Hsl2, Hsl1, lenN_app. exact Hc1. }
+  pose proof Hsh' as (Zn & Zv & Zi & Zl & Zfat & Zfree & Zdifat & Zds & _).
+  pose proof (AllocWf_shape _ _ W2 Hsh') as W'.
+  exists s'. split; [|split; [|split; [exact Hsi'|split; [|split; [|split; [exact W'|]]]]]].
+  - unfold resize.
+    rewrite (bind_exec _ _ _ _ _ (stream_entry_exec s id e He Ht)).
+    cbv beta iota zeta.
+    match goal with |- bind ?m _ s = _ => assert (E : m s = (s2, Ok (d_start e))) end.
+    { destruct (d_start e =? END_OF_CHAIN) eqn:E2; [apply N.eqb_eq in E2; contradiction|].
+      destruct (d_len e <? MINI_STREAM_CUTOFF) eqn:E3; [lia|].
+      destruct (new_len =? 0) eqn:E4; [lia|].
+      destruct (new_len <? MINI_STREAM_CUTOFF) eqn:E5; [lia|].
+      rewrite (bind_exec _ _ _ _ _ (chain_new_exec s (d_start e) IZero ids Hc)).
+      rewrite bind_get.
+      assert (Hset : chain_set_len (mkChain IZero ids 0) new_len s
+                     = (s1, Ok (mkChain IZero (ids ++ nw) 0))).
+      { rewrite chain_set_len_grow by (cbn [c_ids]; lia). cbn [c_ids].
+        rewrite <- Hcount.
+        replace (N.to_nat (lenN ids + lenN nw - lenN ids)) with (length nw)
+          by (rewrite (WalkProofs.lenN_length nw); lia).
+        exact Hgrow. }
+      rewrite (bind_exec _ _ _ _ _ Hset).
+      unfold chain_len at 1. cbn [c_ids].
+      replace (N.min new_len (slen s * lenN ids)) with (slen s * lenN ids) by lia.
+      rewrite (bind_exec _ _ _ _ _ Hz).
+      unfold chain_start. rewrite Hids2, Eids. cbn [app]. rewrite N.eqb_refl. reflexivity. }
+    rewrite (bind_exec _ _ _ _ _ E). exact Hu.
+  - rewrite Hcont2, Hcont1 in HB'. rewrite <- HCL in HB'.
+    rewrite (grow_content _ V _ _ HV) in HB' by blia.
+    rewrite takeN_app_ge in HB' by blia.
+    rewrite takeN_repeatN in HB' by (rewrite HCL; blia).
+    exact HB'.
+  - rewrite Zfree, Sfree. exact F1.
+  - rewrite Zn, Sn. exact Mn.
+  - intros id' V' ids2 Hneq HB2 Hsi2 Hdj.
+    assert (Hbig2 : big_ids s id' ids2).
+    { destruct HB2 as (e2 & l2 & A1 & A2 & A3 & A4 & _). destruct Hsi2 as (e3 & A5 & _ & A6).
+      rewrite A1 in A5. injection A5 as <-. rewrite A4 in A6. injection A6 as <-.
+      exists e2. csplit; assumption. }
+    pose proof (sw_dir_disj s Hwf id' ids2 dids Hbig2 Hd) as Hdisj2.
+    assert (Hids2_nw : forall x, In x ids2 -> ~ In x nw).
+    { intros x Hx Hin. destruct (sw_free_disj s Hwf x (Hnw_free x Hin)) as (D1 & _).
+      exact (D1 id' ids2 Hbig2 Hx). }
+    apply (other_stream_frame s s' id' V' ids2 HB2 Hsi2).
+    + rewrite Hdirs', nthN_updN_other by lia. rewrite Hd2, Mdirs. reflexivity.
+    + rewrite Zfat, Sfat. exact Mfl.
+    + intros x Hx. rewrite Zfat, Sfat.
+      apply T1; [intro Hin; exact (Hdj x Hin Hx) | apply Hids2_nw; exact Hx].
+    + intros x Hx. rewrite Hfr' by (apply Hdisj2; exact Hx).
+      rewrite Hfr2.
+      * apply B1; [apply Hids2_nw; exact Hx|].
+        intro Hin. destruct (sw_difat_disj s Hwf x Hin) as [D _]. exact (D id' ids2 Hbig2 Hx).
+      * intro Hin. apply in_app_or in Hin. destruct Hin as [Hin|Hin].
+        -- exact (Hdj x Hin Hx).
+        -- exact (Hids2_nw x Hx Hin).
+    + exact W'.
+    + rewrite Zn, Sn, Mn. lia.
+    + rewrite (same_shape_slen _ _ Hsh'), Hsl2. exact Hsl1.
+Qed.
+
+(* ================================================================== *)
+(* StoreWf is decidable on concrete states; examples                    *)
+(* ================================================================== *)
+
+Definition disjoint_b (a b : list N) : bool := forallb (fun x => negb (memN x b)) a.
+
+Fixpoint nodup_b (l : list N) : bool :=
+  match l with [] => true | x :: t => negb (memN x t) && nodup_b t end.
+
+Definition is_big (e : dirent) : bool :=
+  objtype_eqb (d_type e) TStream && (MINI_STREAM_CUTOFF <=? d_len e).
+
+Definition storewf_b (s : cstate) : bool :=
+  alloc_wf_b s && (nsect s <=? MAX_REGULAR_SECTOR + 1) &&
+  match chain_ids_of (fat s) (dir_start s) with
+  | Ok dids =>
+    nodup_b dids && forallb (fun x => x <? nsect s) dids &&
+    (DIR_ENTRY_LEN * lenN (dirs s) <=? slen s * lenN dids) &&
+    forallb (fun e => lenN (utf16 (d_name e)) <=? MAX_NAME_LEN) (dirs s) &&
+    nodup_b (free s) &&
+    forallb (fun e => if is_big e then
+                        match chain_ids_of (fat s) (d_start e) with
+                        | Ok ids => disjoint_b ids dids && disjoint_b (free s) ids &&
+                                    disjoint_b (difat s) ids
+                        | _ => true
+                        end
+                      else true) (dirs s) &&
+    disjoint_b (free s) dids && disjoint_b (free s) (difat s) && disjoint_b (difat s) dids
+  | _ => false
+  end.
+
+Lemma disjoint_b_sound : forall a b, disjoint_b a b = true -> forall x, In x a -> ~ In x b.
+Proof.
+  intros a b H x Hx. unfold disjoint_b in H. rewrite forallb_forall in H.
+  specialize (H x Hx). apply negb_true_iff in H. apply WalkProofs.memN_false. exact H.
+Qed.
+
+Lemma nodup_b_sound : forall l, nodup_b l = true -> NoDup l.
+Proof.
+  induction l as [|x t IH]; intro H; [constructor|]. cbn [nodup_b] in H.
+  apply andb_true_iff in H. destruct H as [H1 H2]. apply negb_true_iff in H1.
+  constructor; [apply WalkProofs.memN_false; exact H1 | apply IH; exact H2].
+Qed.
+
+Lemma storewf_b_sound : forall s, storewf_b s = true -> StoreWf s.
+Proof.
+  intros s H. unfold storewf_b in H.
+  apply andb_true_iff in H. destruct H as [H Hrest].
+  apply andb_true_iff in H. destruct H as [Ha Hn].
+  apply alloc_wf_b_sound in Ha. apply N.leb_le in Hn.
+  destruct (chain_ids_of (fat s) (dir_start s)) as [dids| | |] eqn:Hd; try discriminate.
+  repeat (apply andb_true_iff in Hrest; destruct Hrest as [Hrest ?H]).
+  rename Hrest into C1, H into C9, H0 into C8, H1 into C7, H2 into C6, H3 into C5,
+         H4 into C4, H5 into C3, H6 into C2.
+  apply nodup_b_sound in C1, C5. rewrite forallb_forall in C2, C4, C6. apply N.leb_le in C3.
+  assert (Hbig : forall id ids, big_ids s id ids ->
+            disjoint_b ids dids = true /\ disjoint_b (free s) ids = true /\
+            disjoint_b (difat s) ids = true).
+  { intros id ids (e & He & Ht & Hc & Hch). specialize (C6 e (nthN_In _ _ _ _ He)).
+    unfold is_big in C6. rewrite Ht in C6. cbn [objtype_eqb andb] in C6.
+    destruct (MINI_STREAM_CUTOFF <=? d_len e) eqn:E; [|lia].
+    rewrite Hch in C6. apply andb_true_iff in C6. destruct C6 as [C6 X3].
+    apply andb_true_iff in C6. destruct C6 as [X1 X2]. auto. }
+  assert (Hdir : forall l, dir_ids s l -> l = dids).
+  { intros l Hl. unfold dir_ids in Hl. rewrite Hd in Hl. injection Hl as <-. reflexivity. }
+  constructor.
+  - exact Ha.
+  - exact Hn.
+  - exists dids. split; [exact Hd|]. split; [|exact C3].
+    apply good_chain_of_wf; [exact Ha | exact C1 |].
+    rewrite Forall_forall. intros x Hx. apply N.ltb_lt. apply C2. exact Hx.
+  - intros id e He. apply N.leb_le. apply C4. eapply nthN_In. exact He.
+  - intros id ids l Hb Hl. rewrite (Hdir l Hl). destruct (Hbig id ids Hb) as (X1 & _).
+    exact (disjoint_b_sound _ _ X1).
+  - exact C5.
+  - intros x Hx. split; [|split].
+    + intros id ids Hb. destruct (Hbig id ids Hb) as (_ & X2 & _).
+      exact (disjoint_b_sound _ _ X2 x Hx).
+    + intros l Hl. rewrite (Hdir l Hl). exact (disjoint_b_sound _ _ C7 x Hx).
+    + exact (disjoint_b_sound _ _ C8 x Hx).
+  - intros f Hf. split.
+    + intros id ids Hb. destruct (Hbig id ids Hb) as (_ & _ & X3).
+      exact (disjoint_b_sound _ _ X3 f Hf).
+    + intros l Hl. rewrite (Hdir l Hl). exact (disjoint_b_sound _ _ C9 f Hf).
+Qed.
+
+From Cfb.model Require Handle Cfb.
+
+Module StoreExamples.
+  Import Cfb.model.Handle Cfb.model.Cfb ReuseProofs.Examples.
+
+  (* a V3 file with one stream "/s" (directory slot 1) holding 5000 bytes 7:
+     ten 512-byte sectors 2..11, the last one holding 392 meaningful bytes *)
+  Definition s0 : cstate := cs (fst (run_ops f0 [OCreateStream 0 p_s; OHDrop 0])).
+  Definition sx : cstate := fst (write_data 1 0 (repeatN 7 5000) s0).
+  Definition Vx : list byte := repeatN 7 5000.
+  Definition idsx : list N := [2; 3; 4; 5; 6; 7; 8; 9; 10; 11].
+  Definition sy : cstate := fst (resize 1 4096 sx).
+  (* the tactics must not unfold these while unifying (vm_compute still does) *)
+  Opaque s0 sx sy.
+
+  (* the hypotheses of the theorems are satisfiable *)
+  Example sx_wf : StoreWf sx.
+  Proof. apply storewf_b_sound. vm_compute. reflexivity. Qed.
+
+  Lemma big_content_check : forall s id V ids e,
+    StoreWf s -> nthN (dirs s) id = Some e -> d_type e = TStream ->
+    (MINI_STREAM_CUTOFF <=? d_len e) = true ->
+    chain_ids_of (fat s) (d_start e) = Ok ids ->
+    nodup_b ids = true -> forallb (fun x => x <? nsect s) ids = true ->
+    (d_len e <=? slen s * lenN ids) = true ->
+    V = takeN (d_len e) (chain_content s ids) ->
+    big_content s id V /\ stream_ids s id ids.
+  Proof.
+    intros s id V ids e Hwf He Ht Hc Hch Hnd Hlt Hle HV.
+    apply N.leb_le in Hc, Hle. split.
+    - exists e, ids. csplit; try assumption.
+      apply good_chain_of_wf; [exact (sw_alloc s Hwf) | apply nodup_b_sound; exact Hnd |].
+      rewrite forallb_forall in Hlt. rewrite Forall_forall. intros x Hx.
+      apply N.ltb_lt. apply Hlt. exact Hx.
+    - exists e. csplit; assumption.
+  Qed.
+
+  Example sx_content : big_content sx 1 Vx /\ stream_ids sx 1 idsx.
+  Proof.
+    eapply (big_content_check sx 1 Vx idsx _ sx_wf).
+    all: vm_compute; reflexivity.
+  Qed.
+
+  (* S7 on this state: 5000 -> 4700 -> 5000; the 300 bytes regained are zeros *)
+  Example sx_shrink_grow :
+    exists s1 s2,
+      resize 1 4700 sx = (s1, Ok tt) /\ resize 1 5000 s1 = (s2, Ok tt) /\
+      big_content s2 1 (takeN 4700 Vx ++ repeatN 0 300).
+  Proof.
+    destruct sx_content as [HB Hsi].
+    destruct (shrink_then_grow_zero sx 1 Vx idsx 4700 HB Hsi sx_wf)
+      as (s1 & s2 & R1 & R2 & _ & HB2).
+    - rewrite CUTOFF_val. lia.
+    - unfold Vx. rewrite lenN_repeatN. lia.
+    - vm_compute. reflexivity.
+    - unfold Vx in R2, HB2. rewrite lenN_repeatN in R2, HB2.
+      exists s1, s2. split; [exact R1|]. split; [exact R2 | exact HB2].
+  Qed.
+
+  (* ... and the explicit zero fill is what makes this true: the same resize
+     without zero_fill_chain (Chain::set_len alone, as before the repair)
+     exposes the 300 stale bytes 7 that the last sector still holds *)
+  Definition resize_big_nofill (id new_len : N) : M unit :=
+    do '(old_start, old_len) <- stream_entry id;
+    do new_start <-
+      (do c <- chain_new old_start IZero;
+       do c <- chain_set_len c new_len;
+       (if negb (chain_start c =? old_start) then panic 612 else ret tt) ;;
+       ret old_start);
+    update_entry id new_start new_len.
+
+  Example without_zero_fill_stale :
+    let s1 := fst (resize 1 4700 sx) in
+    snd (read_data 1 4700 300 (fst (resize_big_nofill 1 5000 s1))) = Ok (repeatN 7 300) /\
+    snd (read_data 1 4700 300 (fst (resize 1 5000 s1))) = Ok (repeatN 0 300).
+  Proof. vm_compute. split; reflexivity. Qed.
+
+  (* S4 (general) then S6 on this state: 5000 -> 4096 releases sectors 10 and
+     11; growing back to 5000 pops them (11 first) and the 904 regained bytes
+     are zeros although both sectors were full of 7s *)
+  Example sx_shrink_frees :
+    exists s', resize 1 4096 sx = (s', Ok tt) /\ big_content s' 1 (takeN 4096 Vx) /\
+               stream_ids s' 1 [2; 3; 4; 5; 6; 7; 8; 9] /\ free s' = [10; 11].
+  Proof.
+    destruct sx_content as [HB Hsi].
+    destruct (resize_big_shrink sx 1 Vx idsx 4096 HB Hsi sx_wf)
+      as (s' & R & HB' & Hsi' & Hf & _).
+    - rewrite CUTOFF_val. lia.
+    - unfold Vx. rewrite lenN_repeatN. lia.
+    - exists s'. split; [exact R|]. split; [exact HB'|]. split; [exact Hsi' | exact Hf].
+  Qed.
+
+  Example sy_wf : StoreWf sy.
+  Proof. apply storewf_b_sound. vm_compute. reflexivity. Qed.
+
+  Example sy_regrow_zero :
+    exists s', resize 1 5000 sy = (s', Ok tt) /\
+               big_content s' 1 (takeN 4096 Vx ++ repeatN 0 904) /\
+               stream_ids s' 1 [2; 3; 4; 5; 6; 7; 8; 9; 11; 10] /\ free s' = [].
+  Proof.
+    destruct sx_shrink_frees as (s' & R & HB & Hsi & Hf).
+    assert (E : s' = sy) by (transitivity (fst (resize 1 4096 sx)); [rewrite R; reflexivity | vm_compute; reflexivity]). subst s'.
+    destruct (resize_big_grow_zero_new_sectors sy 1 (takeN 4096 Vx) [2; 3; 4; 5; 6; 7; 8; 9]
+                5000 [] [11; 10] HB Hsi sy_wf)
+      as (s' & R' & HB' & Hsi' & Hf' & _).
+    - vm_compute. reflexivity.
+    - exact Hf.
+    - vm_compute. reflexivity.
+    - replace (lenN (takeN 4096 Vx)) with 4096 in HB'
+        by (rewrite lenN_takeN; unfold Vx; rewrite lenN_repeatN; reflexivity).
+      exists s'. split; [exact R'|]. split; [exact HB'|]. split; [exact Hsi' | exact Hf'].
+  Qed.
+End StoreExamples.
